@@ -237,6 +237,7 @@ impl<F: Float, R: Rng + Clone, DA: Data<Elem = F>, T, D: Distance<F>>
         let mut min_inertia = F::infinity();
         let mut best_centroids = None;
         let mut memberships = Array1::zeros(n_samples);
+        let mut best_memberships = Array1::zeros(n_samples);
         let mut dists = Array1::zeros(n_samples);
 
         let n_runs = self.n_runs();
@@ -261,6 +262,15 @@ impl<F: Float, R: Rng + Clone, DA: Data<Elem = F>, T, D: Distance<F>>
                 centroids = new_centroids;
                 n_iter += 1;
                 if distance < self.tolerance() || n_iter == self.max_n_iterations() {
+                    // the reported inertia and memberships describe the centroids that are
+                    // returned, not the ones before the last update
+                    update_memberships_and_dists(
+                        self.dist_fn(),
+                        &centroids,
+                        &observations,
+                        &mut memberships,
+                        &mut dists,
+                    );
                     break dists.sum();
                 }
             };
@@ -271,13 +281,14 @@ impl<F: Float, R: Rng + Clone, DA: Data<Elem = F>, T, D: Distance<F>>
             if inertia < min_inertia {
                 min_inertia = inertia;
                 best_centroids = Some(centroids.clone());
+                best_memberships.assign(&memberships);
             }
         }
 
         match best_centroids {
             Some(centroids) => {
                 let mut cluster_count = Array1::zeros(self.n_clusters());
-                memberships
+                best_memberships
                     .iter()
                     .for_each(|&c| cluster_count[c] += F::one());
                 Ok(KMeans {
